@@ -87,7 +87,7 @@ func c03Keys(cs *fs.Case, o *fs.Outcome) map[string]string {
 }
 
 func runC03(tier string) int {
-	r, ok := newFrontRun("C03", tier, map[string]int{"quick": 200, "thorough": 2400})
+	r, ok := newFrontRun("C03", tier, map[string]int{"quick": 600, "thorough": 2400})
 	defer r.close()
 	if !ok {
 		return r.c.Finish()
